@@ -43,6 +43,9 @@ type PreemptFrac struct {
 
 type C17Plan struct {
 	Shared   []string                `json:"shared"` // texts of the shared ASTs (built before the tasks start)
+	// SharedStmt: one more shared object, a statement of any kind (or a multi-statement query),
+	// used read-only by "shared-stmt" operations: String, Walk, RequiredPrivileges, DefaultDatabase
+	SharedStmt string `json:"shared_stmt,omitempty"`
 	Tasks    []TaskPlan              `json:"tasks"`
 	Preempts []PreemptFrac           `json:"preempts"`
 	// AtomicPreempts: switch at the Nth scheduling point in front of an atomic operation (drawn only
@@ -87,8 +90,8 @@ func (C17) Runs(tier string) uint64 {
 	return 60000
 }
 
-var sharedOps = []string{"String", "Clone", "CloneExpr", "WalkFunc", "WalkNil", "Eval", "EvalBool", "EvalFields", "Reduce", "ReduceExpr", "RewriteFields", "ConditionExpr", "EvalType", "TypeValuerEval", "FieldDimensions", "ColumnNames", "FieldExprByName", "Names", "AliasNames", "Measurements", "RequiredPrivileges", "HasWildcard", "ExprNames", "HasTimeExpr", "TimeAscending", "ContainsVarRef", "IsSelector", "BinaryExprName", "Normalize"}
-var indepKinds = []string{"parse-query", "parse-stmt", "parse-expr", "print-own", "quote-string", "quote-ident", "needs-quotes", "format-duration", "parse-duration", "sanitize", "lookup", "language-clone", "own-settimerange", "own-rewrite", "parse-stream"}
+var sharedOps = []string{"String", "Clone", "CloneExpr", "WalkFunc", "WalkNil", "Eval", "EvalBool", "EvalFields", "Reduce", "ReduceExpr", "RewriteFields", "ConditionExpr", "EvalType", "TypeValuerEval", "FieldDimensions", "ColumnNames", "FieldExprByName", "Names", "AliasNames", "Measurements", "RequiredPrivileges", "HasWildcard", "ExprNames", "HasTimeExpr", "TimeAscending", "ContainsVarRef", "IsSelector", "BinaryExprName", "Normalize", "TimeRangeMethods", "PartitionExpr", "ConjunctionsRoundTrip", "SortFields", "ListStrings"}
+var indepKinds = []string{"parse-query", "parse-stmt", "parse-expr", "print-own", "quote-string", "quote-ident", "needs-quotes", "format-duration", "parse-duration", "sanitize", "lookup", "language-clone", "own-settimerange", "own-rewrite", "parse-stream", "shared-stmt"}
 
 func genTaskOp(r *core.Rand, o gen.Opts, nShared int, pool int, hot *TaskOp) TaskOp {
 	if hot != nil && r.Chance(3, 4) {
@@ -125,6 +128,8 @@ func genTaskOp(r *core.Rand, o gen.Opts, nShared int, pool int, hot *TaskOp) Tas
 			t.Text = core.RawStr(gen.Query(r, o) + r.Pick([]string{"", " GROUP BY region", ""}))
 		}
 		t.N = int64(r.Pick3(1, 7, 4096))
+	case "shared-stmt":
+		t.N = int64(r.Intn(1000))
 	case "own-settimerange", "own-rewrite":
 		// in-place work on a statement no other task can see
 		t.Text = core.RawStr(gen.Select(r, o, 0))
@@ -155,6 +160,9 @@ func (C17) NewPlan(r *core.Rand, tier string, i uint64) interface{} {
 	nShared := r.Weighted([]int{1, 5, 2})
 	for k := 0; k < nShared; k++ {
 		p.Shared = append(p.Shared, gen.Select(r, o, 0))
+	}
+	if r.Chance(1, 3) {
+		p.SharedStmt = gen.Query(r, o)
 	}
 	nTasks := r.Weighted([]int{0, 0, 5, 4, 3, 2, 2})
 	pool := r.Weighted([]int{5, 2, 3, 2}) // mixed, all independent, all shared, hot op
@@ -210,8 +218,37 @@ func (C17) Decode(b []byte) (interface{}, error) {
 }
 
 // runTaskOp executes one operation of a task and returns a canonical result.
-func runTaskOp(op *TaskOp, ctx *opCtx, shared []*influxql.SelectStatement) string {
+func runTaskOp(op *TaskOp, ctx *opCtx, shared []*influxql.SelectStatement, sharedQ *influxql.Query) string {
 	switch op.Kind {
+	case "shared-stmt":
+		if sharedQ == nil {
+			return ""
+		}
+		switch op.N % 5 {
+		case 0:
+			return sharedQ.String()
+		case 1:
+			n := 0
+			influxql.WalkFunc(sharedQ, func(influxql.Node) { n++ })
+			return fmt.Sprint(n)
+		case 2:
+			var sb strings.Builder
+			for _, st := range sharedQ.Statements {
+				p, err := st.RequiredPrivileges()
+				fmt.Fprint(&sb, p, err, ";")
+			}
+			return sb.String()
+		case 3:
+			var sb strings.Builder
+			for _, st := range sharedQ.Statements {
+				if d, ok := st.(influxql.HasDefaultDatabase); ok {
+					sb.WriteString(d.DefaultDatabase() + ";")
+				}
+			}
+			return sb.String()
+		default:
+			return sharedQ.Statements.String() + influxql.Sanitize(sharedQ.String())
+		}
 	case "shared":
 		if op.Shared < len(shared) && shared[op.Shared] != nil {
 			o := op.Op
@@ -311,6 +348,17 @@ type opResult struct {
 	out   string
 	pan   *core.PanicInfo
 	steps int64
+}
+
+func parseSharedQuery(text string) *influxql.Query {
+	if text == "" {
+		return nil
+	}
+	q, err := influxql.ParseQuery(text)
+	if err != nil {
+		return nil
+	}
+	return q
 }
 
 func parseShared(texts []string) []*influxql.SelectStatement {
@@ -449,7 +497,7 @@ func (C17) Exec(pi interface{}) *core.RunResult {
 				op := &p.Tasks[t].Ops[k]
 				var out string
 				verifhook.BeginOp(opBudget)
-				pan := core.Guard(func() { out = runTaskOp(op, ctx, sh) })
+				pan := core.Guard(func() { out = runTaskOp(op, ctx, sh, parseSharedQuery(p.SharedStmt)) })
 				steps := verifhook.EndOp()
 				twin[t][k] = opResult{out, pan, steps}
 				total += steps + 1
@@ -467,6 +515,7 @@ func (C17) Exec(pi interface{}) *core.RunResult {
 
 	// concurrent phase
 	shared := parseShared(p.Shared)
+	sharedQ := parseSharedQuery(p.SharedStmt)
 	var pre []verifhook.Preempt
 	for _, f := range p.Preempts {
 		pre = append(pre, verifhook.Preempt{Step: f.Step, Choice: f.Choice})
@@ -501,7 +550,7 @@ func (C17) Exec(pi interface{}) *core.RunResult {
 				verifhook.Yield(verifhook.SiteOpBoundary)
 				var out string
 				verifhook.BeginOp(opBudget)
-				pan := core.Guard(func() { out = runTaskOp(op, ctxs[t], shared) })
+				pan := core.Guard(func() { out = runTaskOp(op, ctxs[t], shared, sharedQ) })
 				steps := verifhook.EndOp()
 				conc[t][k] = opResult{out, pan, steps}
 			}
